@@ -1469,6 +1469,258 @@ theorem WClosed_push {fs : List Mcount.Frame} (f : Mcount.Frame) (hf : f.written
 
 theorem WClosed_tail {f : Mcount.Frame} {fs : List Mcount.Frame} (h : WClosed (f :: fs)) : WClosed fs := h.2
 
+/-- the ENTRY records still owed for a shadow stack (innermost first): those of the frames that are neither filtered
+    out (NORECORD / DISABLED) nor written, outermost first -/
+def pendingEntries : List Mcount.Frame → List Mcount.Rec
+  | [] => []
+  | f :: r => pendingEntries r ++ (if !f.skip && !f.written then [Mcount.entryRec f] else [])
+
+theorem pendingEntries_nil_of_allW : ∀ {fs : List Mcount.Frame}, AllW fs → pendingEntries fs = []
+  | [], _ => rfl
+  | f :: r, h => by
+    have hr : AllW r := fun g hg => h g (List.mem_cons_of_mem _ hg)
+    have hf := h f (List.mem_cons_self ..)
+    simp only [pendingEntries, pendingEntries_nil_of_allW hr, List.nil_append]
+    cases hs : f.skip
+    · simp [hf hs]
+    · simp
+
+theorem mem_pendingEntries : ∀ {fs : List Mcount.Frame} {r : Mcount.Rec},
+    r ∈ pendingEntries fs ↔ ∃ f ∈ fs, f.skip = false ∧ f.written = false ∧ r = Mcount.entryRec f
+  | [], r => by simp [pendingEntries]
+  | g :: l, r => by
+    simp only [pendingEntries, List.mem_append, mem_pendingEntries (fs := l), List.mem_cons]
+    constructor
+    · rintro (⟨f, hf, h⟩ | h)
+      · exact ⟨f, Or.inr hf, h⟩
+      · split at h
+        · rename_i hc
+          simp only [List.mem_singleton] at h
+          simp only [Bool.and_eq_true, Bool.not_eq_eq_eq_not, Bool.not_true] at hc
+          exact ⟨g, Or.inl rfl, hc.1, hc.2, h⟩
+        · simp at h
+    · rintro ⟨f, hf | hf, hs, hw, hr⟩
+      · right; subst hf; simp [hs, hw, hr]
+      · left; exact ⟨f, hf, hs, hw, hr⟩
+
+/-- the downward walk hands over exactly the owed ENTRY records, outermost first -/
+theorem flushBelow_exact : ∀ (fs : List Mcount.Frame), WClosed fs → (Mcount.flushBelow fs).2 = pendingEntries fs
+  | [], _ => rfl
+  | f :: r, h => by
+    unfold Mcount.flushBelow
+    by_cases hw : f.written = true
+    · have : AllW (f :: r) := by
+        intro g hg hgs
+        simp only [List.mem_cons] at hg
+        rcases hg with hg | hg
+        · rw [hg]; exact hw
+        · exact h.1 hw g hg hgs
+      simp [hw, pendingEntries_nil_of_allW this]
+    · have hw' : f.written = false := by simpa using hw
+      simp only [hw', Bool.false_eq_true, if_false, pendingEntries, Bool.not_false, Bool.and_true]
+      have ih := flushBelow_exact r h.2
+      cases hs : f.skip <;> simp [ih]
+
+/-- the EXIT record of the frame record_trace_data is called for (only on the exit path: `end_time` set) -/
+def exitPart : List Mcount.Frame → List Mcount.Rec
+  | [] => []
+  | top :: _ => if top.endT != 0 then [Mcount.exitRec top] else []
+
+/-- **record_trace_data, exactly.**  Called for the top frame of ANY stack that satisfies its premise - with filtered-out
+    (NORECORD) or DISABLED frames anywhere, the top frame included - it hands over the ENTRY records of all recordable
+    open calls that were not written yet, outermost first, then the top frame's EXIT if it is returning; nothing else. -/
+theorem recordTrace_exact {fs : List Mcount.Frame} (h : WClosed fs) :
+    (Mcount.recordTrace fs).2 = pendingEntries fs ++ exitPart fs := by
+  cases fs with
+  | nil => rfl
+  | cons top rest =>
+    unfold Mcount.recordTrace
+    by_cases hw : top.written = true
+    · have : AllW (top :: rest) := by
+        intro g hg hgs
+        simp only [List.mem_cons] at hg
+        rcases hg with hg | hg
+        · rw [hg]; exact hw
+        · exact h.1 hw g hg hgs
+      simp [hw, pendingEntries_nil_of_allW this, exitPart]
+    · have hw' : top.written = false := by simpa using hw
+      simp only [hw', Bool.false_eq_true, if_false, Bool.not_false, Bool.true_and, pendingEntries, Bool.and_true,
+        exitPart, flushBelow_exact rest h.2]
+
+/-- a filtered-out top frame changes nothing for its callers: their owed ENTRY records are handed over all the same -/
+theorem recordTrace_filtered_top {top : Mcount.Frame} {rest : List Mcount.Frame} (h : WClosed (top :: rest))
+    (hs : top.skip = true) (hw : top.written = false) :
+    (Mcount.recordTrace (top :: rest)).2 = pendingEntries rest ++ exitPart (top :: rest) := by
+  rw [recordTrace_exact h]
+  simp [pendingEntries, hs]
+
+theorem flushBelow_WClosed : ∀ (fs : List Mcount.Frame), WClosed fs → WClosed (Mcount.flushBelow fs).1
+  | [], _ => by simp [Mcount.flushBelow, WClosed]
+  | f :: r, h => by
+    unfold Mcount.flushBelow
+    by_cases hw : f.written = true
+    · simpa [hw] using h
+    · simp only [hw, Bool.false_eq_true, if_false]
+      have ih := flushBelow_WClosed r h.2
+      have ha := flushBelow_allW r h.2
+      split
+      · exact ⟨fun _ => ha, ih⟩
+      · exact ⟨fun _ => ha, ih⟩
+
+/-- record_trace_data leaves the shadow stack closed -/
+theorem recordTrace_WClosed {fs : List Mcount.Frame} (h : WClosed fs) : WClosed (Mcount.recordTrace fs).1 := by
+  cases fs with
+  | nil => simp [Mcount.recordTrace, WClosed]
+  | cons top rest =>
+    obtain ⟨top2, e, _, _⟩ := recordTrace_top top rest
+    rw [e]
+    by_cases hw : top.written = true
+    · simp only [hw, if_true]
+      exact ⟨fun _ => h.1 hw, h.2⟩
+    · simp only [hw, Bool.false_eq_true, if_false]
+      exact ⟨fun _ => flushBelow_allW rest h.2, flushBelow_WClosed rest h.2⟩
+
+/-- the flags an entry hook puts on the frame it has just pushed (NORECORD, DISABLED, FILTERED …) keep it closed: the
+    frame is not written yet -/
+theorem WClosed_retag {f f' : Mcount.Frame} {fs : List Mcount.Frame} (hf : f'.written = false)
+    (h : WClosed (f :: fs)) : WClosed (f' :: fs) := ⟨by simp [hf], h.2⟩
+
+
+/-! ### the hooks keep record_trace_data's premise (`WClosed`)
+
+Every function of the hook model that touches the shadow stack: mcount_check_rstack, the TRACE_OFF flush,
+mcount_entry_filter_check, mcount_entry_filter_record (the flags it puts on the new frame: NORECORD, DISABLED, …; the
+finish trigger; the flush when tracing goes off), mcount_exit_filter_record, the entry and exit hooks of both families,
+the crash handler's flush and the fork child handler. -/
+
+theorem WClosed_retag_same {f f' : Mcount.Frame} {fs : List Mcount.Frame} (hw : f'.written = f.written)
+    (h : WClosed (f :: fs)) : WClosed (f' :: fs) := ⟨by rw [hw]; exact h.1, h.2⟩
+
+theorem WClosed_tail' : ∀ {fs : List Mcount.Frame}, WClosed fs → WClosed fs.tail
+  | [], _ => by simp [WClosed]
+  | _ :: _, h => h.2
+
+theorem WClosed_allWritten : ∀ (fs : List Mcount.Frame), WClosed (fs.map fun f => { f with written := true })
+  | [] => by simp [WClosed]
+  | f :: r => by
+    refine ⟨fun _ => ?_, WClosed_allWritten r⟩
+    intro g hg _
+    simp only [List.mem_map] at hg
+    obtain ⟨g0, _, e⟩ := hg
+    rw [← e]
+
+theorem checkRstack_WClosed (cfg : Mcount.Cfg) (s : Mcount.St) (h : WClosed s.frames) :
+    WClosed (Mcount.checkRstack cfg s).2.frames := by
+  unfold Mcount.checkRstack
+  split
+  · split
+    · exact recordTrace_WClosed h
+    · exact h
+  · exact h
+
+theorem traceOffFlush_WClosed (cfg : Mcount.Cfg) (s : Mcount.St) (tr : Mcount.Trigger) (h : WClosed s.frames) :
+    WClosed (Mcount.traceOffFlush cfg s tr).frames := by
+  rw [Mcount.traceOffFlush_frames]
+  split
+  · exact recordTrace_WClosed h
+  · exact h
+
+theorem entryFilterCheck_WClosed (cfg : Mcount.Cfg) (s : Mcount.St) (addr : Nat) (h : WClosed s.frames) :
+    WClosed (Mcount.entryFilterCheck cfg s addr).2.1.frames := by
+  have hc := checkRstack_WClosed cfg s h
+  unfold Mcount.entryFilterCheck
+  simp only []
+  repeat' split
+  all_goals first
+    | exact hc
+    | exact traceOffFlush_WClosed cfg _ _ hc
+
+theorem entryFilterRecord_WClosed (cfg : Mcount.Cfg) (s : Mcount.St) (tr : Mcount.Trigger) (h : WClosed s.frames)
+    (hw : ∀ f r, s.frames = f :: r → f.written = false) :
+    WClosed (Mcount.entryFilterRecord cfg s tr).frames := by
+  unfold Mcount.entryFilterRecord
+  split
+  · exact h
+  · rename_i f rest hfr
+    have hfw := hw f rest hfr
+    rw [hfr] at h
+    simp only []
+    repeat' split
+    all_goals first
+      | (rw [hfr]; exact h)
+      | exact recordTrace_WClosed (WClosed_retag (by simpa using hfw) h)
+      | exact WClosed_retag (by simpa using hfw) h
+
+theorem exitFilterRecord_WClosed (cfg : Mcount.Cfg) (s : Mcount.St) (h : WClosed s.frames) :
+    WClosed (Mcount.exitFilterRecord cfg s).frames := by
+  unfold Mcount.exitFilterRecord
+  split
+  · exact h
+  · rename_i f rest hfr
+    rw [hfr] at h
+    simp only []
+    repeat' split
+    all_goals first
+      | exact recordTrace_WClosed h
+      | exact h
+      | (rw [hfr]; exact h)
+
+theorem entry_WClosed (cfg : Mcount.Cfg) (k : Mcount.Kind) (s : Mcount.St) (addr now : Nat) (h : WClosed s.frames) :
+    WClosed (Mcount.entry cfg k s addr now).1.frames := by
+  have h1 := entryFilterCheck_WClosed cfg s addr h
+  unfold Mcount.entry
+  simp only []
+  cases k with
+  | pg =>
+    simp only []
+    split
+    · exact h1
+    · apply entryFilterRecord_WClosed
+      · exact WClosed_push _ rfl h1
+      · intro f r e
+        simp only [List.cons.injEq] at e
+        rw [← e.1]
+  | cyg =>
+    simp only []
+    split
+    · exact h1
+    · apply entryFilterRecord_WClosed
+      · exact WClosed_push _ rfl h1
+      · intro f r e
+        simp only [List.cons.injEq] at e
+        rw [← e.1]
+
+theorem exit_WClosed (cfg : Mcount.Cfg) (s : Mcount.St) (now : Nat) (h : WClosed s.frames) :
+    WClosed (Mcount.exit cfg s now).frames := by
+  unfold Mcount.exit
+  split
+  · exact h
+  · split
+    · exact h
+    · rename_i f rest hfr
+      rw [hfr] at h
+      simp only []
+      apply WClosed_tail'
+      apply exitFilterRecord_WClosed
+      exact WClosed_retag_same (by split <;> rfl) h
+
+theorem flushTop_WClosed (s : Mcount.St) (h : WClosed s.frames) : WClosed (Mcount.flushTop s).frames :=
+  recordTrace_WClosed h
+
+theorem forkChild_WClosed (s : Mcount.St) : WClosed (Mcount.forkChild s).frames := WClosed_allWritten s.frames
+
+theorem hookStep_WClosed (cfg : Mcount.Cfg) (s : Mcount.St) (o : HookOp) (h : WClosed s.frames) :
+    WClosed (hookStep cfg s o).frames := by
+  cases o with
+  | enter k addr now => exact entry_WClosed cfg k s addr now h
+  | leave now => exact exit_WClosed cfg s now h
+  | flush => exact flushTop_WClosed s h
+  | forkChild => exact forkChild_WClosed s
+
+theorem runHooks_WClosed (cfg : Mcount.Cfg) : ∀ (ops : List HookOp) (s : Mcount.St), WClosed s.frames →
+    WClosed (runHooks cfg s ops).frames
+  | [], _, h => h
+  | o :: os, s, h => runHooks_WClosed cfg os _ (hookStep_WClosed cfg s o h)
 
 /-! ### the shutdown measure -/
 
